@@ -165,11 +165,12 @@ def run(ctx):
     # and gives the same answers (also when LanguageAuto is changed a second time, and when it is given before Language=Auto is... not allowed: rejected)
     n_auto = n_auto_model = 0
     auto_langs = langs + ["xx", "en-xx", "zh-cn"]
+    RD = ("set_rules_dir", "again")          # the host initialises the library a second time (also what a repair by re-pointing does, C14)
     def by_route(route_prefs):
-        lines = core.prelude([{"op": "set_pref", "name": n, "value": v} for n, v in route_prefs] + [{"op": "hook", "which": "rule_files"}])
+        lines = core.prelude([{"op": "rules_dir", "dir": core.rules_dir()} if (n, v) == RD else {"op": "set_pref", "name": n, "value": v} for n, v in route_prefs] + [{"op": "hook", "which": "rule_files"}])
         lines += [{"op": "set_mathml", "xml": FB[1]}, {"op": "speech"}, {"op": "overview"}, {"op": "nav", "cmd": "ZoomIn"}]
         rep = im.run([{"op": "session"}] + lines)[1:]
-        bad = [r for q, r in zip(lines, rep) if q["op"] == "set_pref" and r.get("r") != "ok"]
+        bad = [r for q, r in zip(lines[1:], rep[1:]) if q["op"] in ("set_pref", "rules_dir") and r.get("r") != "ok"]
         hk = next(r for q, r in zip(lines, rep) if q["op"] == "hook")
         return bad, (hk.get("v") if hk.get("r") == "ok" else {"r": hk.get("r")}), [r.get("v") if r.get("r") == "ok" else {"r": r.get("r")} for r in rep[-3:]], lines
     for l in auto_langs:
@@ -180,12 +181,13 @@ def run(ctx):
         direct_style = by_route([("Language", l), ("SpeechStyle", st)])
         A, L, S = ("Language", "Auto"), ("LanguageAuto", l), ("SpeechStyle", st)
         for route in ([A, L], [A, ("LanguageAuto", other), L], [("Language", other), A, L],
-                      [A, L, S], [S, A, L], [A, ("LanguageAuto", other), S, L], [A, L, ("SpeechStyle", st0), S]):
+                      [A, L, S], [S, A, L], [A, ("LanguageAuto", other), S, L], [A, L, ("SpeechStyle", st0), S],
+                      [A, L, RD], [("Language", l), A, RD], [A, L, S, RD]):
             direct = direct_style if S in route else direct_plain
             got = by_route(route)
             n_auto += 1
             # the model of the selection (MC.Prefs.runOpsF, theorem files_follow_language) predicts the language of the files; MC.Fallback resolves them
-            mf = mo.run([{"op": "prefs_files", "ops": [list(x) for x in route]}])[0]
+            mf = mo.run([{"op": "prefs_files", "ops": [list(x) for x in route if x != RD]}])[0]      # (initialising again selects the files of the language in force: no change under the invariant)
             if mf.get("r") == "ok" and not got[0] and isinstance(got[1], list):
                 fl, sl = mf["v"]
                 style = ([v for n_, v in route if n_ == "SpeechStyle"] or ["ClearSpeak"])[-1]
